@@ -2,7 +2,8 @@
 From Coq Require Import ZArith.
 From RsdnsModel Require Import Base GenConst GenCursor GenHeader GenTracker GenReader GenClient GenSpec.
 From RsdnsModel Require Import Cursor Names Labels Header Tracker RData Reader Client.
-From RsdnsModel.Proofs Require Import CursorSafe ListN.
+From RsdnsModel.Spec Require Import NameText.
+From RsdnsModel.Proofs Require Import CursorSafe ListN NameOrder NoUB NameEqStr.
 From Coq Require Import ZifyBool ZifyN ZifyNat.
 Open Scope N_scope.
 
@@ -313,4 +314,22 @@ Proof.
     std_clock_lifetime, std_clock_attempt, std_clock_tcp_prefix, std_clock_tcp_body.
   destruct (armed_timeouts_within_lifetime (now - start) lifetime qt (now - qs) tau) as (A & B & C).
   split; [|split; [|split]]; intro H; [apply A in H|apply B in H|apply C in H|apply C in H]; lia.
+Qed.
+
+(* ---------------------------------------------------------------- the accepted question, as text *)
+(* the question of an accepted datagram carries a valid name whose case-folded text equals the
+   case-folded canonical spelling of the asked name (root dot optional in what the caller passed) *)
+Theorem accept_name_is_asked std id qname qtype qclass d fl :
+  accept_datagram std id qname qtype qclass d = Ok (Some fl) ->
+  exists r1 hd r2 n, rd_header d (mkReader (c_new d) tr_default false) = (r1, Ok (OHeader hd)) /\
+    rd_question d true false r1 = (r2, Ok (OQuestion n qtype qclass)) /\
+    valid_text n = true /\ fold_case n = fold_case (canon_text qname).
+Proof.
+  intro H. destruct (accept_sound _ _ _ _ _ _ _ H) as (_ & r1 & hd & n & Eh & _ & _ & _ & Eq & En).
+  assert (Hc : cwf d (r_cur r1)).
+  { pose proof (rsafe_header d (mkReader (c_new d) tr_default false) (cwf_new d)) as [[Hc _] _]. rewrite Eh in Hc. exact Hc. }
+  destruct (rd_question d true false r1) as [r2 q] eqn:E. cbn [snd] in Eq. subst q.
+  destruct (question_name_shape d true r1 r2 n qtype qclass Hc E) as [[t Ht] Hv].
+  exists r1, hd, r2, n. repeat split; try assumption.
+  subst n. rewrite name_eq_str_spec in En. apply name_eq_fold. exact En.
 Qed.
